@@ -83,7 +83,7 @@ PROPS = {
     "C09": {
         "ops": [("wrap9", FF, 6000, 150000), ("wrap9", MIN, 2000, 40000), ("std", FF, 4000, 100000)],
         "spot": ["wrap", "fill"],
-        "explanation": "theorems C09_prefix/tail_independent/empty_indents/line_count/fill_is_join/crlf_equivariant for any optimal-fit oracle that returns a partition; L1 on seven related calls per case; L2 evaluates each relation on the implementation's results",
+        "explanation": "theorems C09_prefix/tail_independent/empty_indents/line_count/fill_is_join/crlf_equivariant for any optimal-fit oracle that returns a partition; L1 on eight related calls per case; L2 evaluates each relation on the implementation's results",
         "assumptions": ["the optimal-fit oracle returns at least one line and does not invent words (follows from C06)"],
     },
     "C10": {
